@@ -1,6 +1,7 @@
 package main
 
 import (
+	"strings"
 	"fmt"
 
 	"golang.org/x/tools/go/ssa"
@@ -136,6 +137,42 @@ func (x *Exec) stdlib(fr *Frame, ins ssa.Instruction, fn *ssa.Function, args []V
 		x.assume(ts.And(x.w.bvsle(ts.BV(0, 64), n), x.w.bvsle(n, x.w.sLen(buf))))
 		x.assume(ts.Implies(ts.Eq(e, x.w.ifaceNil()), ts.Eq(n, x.w.sLen(buf))))
 		return Tuple{n, e}, true
+	case "sort.Slice", "sort.SliceStable":
+		// less(i, j) is called an unknown number of times with in-range indexes:
+		// its body is checked once for arbitrary i, j in a state in which
+		// everything earlier calls may have written is arbitrary
+		var lfn *ssa.Function
+		var binds []Value
+		switch l := args[1].(type) {
+		case *Closure:
+			lfn, binds = l.fn, l.bindings
+		case *FuncRef:
+			lfn = l.fn
+		}
+		sl, _ := args[0].(*Term)
+		if lfn == nil || sl == nil || sl.kind != kApp || !strings.HasPrefix(sl.op, "box_") || len(sl.args) != 1 || sl.args[0].sort != SSlice {
+			break
+		}
+		slice := sl.args[0]
+		x.note("trusted: sort.Slice calls less only with 0 <= i, j < len(x); the order of the elements afterwards is unspecified in the model")
+		havocMods := func() {
+			for n, mi := range x.fnMods(lfn, map[*ssa.Function]bool{}) {
+				x.compSort[n] = mi.sort
+				st.heap[n] = x.w.Fresh(n, mi.sort)
+				x.noteBase(st.heap[n], st.alloc)
+			}
+		}
+		havocMods()
+		i, j := x.w.Fresh("sort_i", SBV(64)), x.w.Fresh("sort_j", SBV(64))
+		x.assume(ts.And(x.w.bvsle(ts.BV(0, 64), i), x.w.bvslt(i, x.w.sLen(slice)), x.w.bvsle(ts.BV(0, 64), j), x.w.bvslt(j, x.w.sLen(slice))))
+		sub := st.clone()
+		_, nst := x.callFunction(lfn, []Value{i, j}, binds, sub)
+		if nst != nil {
+			st.heap, st.alloc, st.epoch = nst.heap, nst.alloc, nst.epoch
+			// (paths on which less panicked are obligations already; the guard is unchanged)
+		}
+		havocMods()
+		return nil, true
 	case "strings.Repeat", "bytes.Repeat":
 		// documented to panic if count is negative or the result length overflows
 		var ln *Term
